@@ -2,7 +2,7 @@
    format_xyz_src, format_atomname_src and export_layout_src are regenerated from
    pdb2sql_base.py on every run (Generated_export.v). *)
 From Verif Require Import PyLib ModelTypes Generated_export Model_export Spec_parse Spec_export
-  Generated_parse Model_parse Proofs_digits Proofs_export Proofs_export2 Proofs_reparse Proofs_reread Proofs_roundtrip.
+  Generated_parse Model_parse Proofs_digits Proofs_export Proofs_export2 Proofs_reparse Proofs_reread Proofs_roundtrip Proofs_b64 Proofs_roundtrip2.
 Open Scope Q_scope.
 
 (* a coordinate raises exactly outside (-1e7+0.5, 1e8-0.5); inside, it is the fixed-point
@@ -92,6 +92,18 @@ Theorem C02_row_roundtrip : forall d line nmodel, fits d = true -> rereadable d 
 Proof. exact row_roundtrip. Qed.
 Print Assumptions C02_row_roundtrip.
 
+(* the binary64 rounding applied to a re-read decimal has relative error at most 2^-53 ... *)
+Theorem C02_b64_error : forall q, Qabs (b64 q - q) <= Qabs q * (1 # 2 ^ 53).
+Proof. exact b64_error. Qed.
+Print Assumptions C02_b64_error.
+(* ... so the round trip holds IN THE PROPERTY'S OWN TERMS (Spec_export.approx_row: thirteen attributes, integer and
+   text ones identical, coordinates within half a unit of the precision "that fits", occupancy and B-factor within
+   0.005, each up to that one binary64 rounding) *)
+Theorem C02_roundtrip : forall d line nmodel, fits d = true -> rereadable d -> line_of_row d = Ok line ->
+  exists d', parse_record nmodel line = Ok d' /\ approx_row d d' = true.
+Proof. exact roundtrip_approx. Qed.
+Print Assumptions C02_roundtrip.
+
 (* the round trip is FALSE of the faithful model for a row whose chain identifier is the empty string (inside the
    property's quantifier: "0-1 character chain"): the row fits, is exported with a blank column 22, and the parser
    rejects that line (blank chain with blank segID raises, as C01 requires): known finding F24 *)
@@ -100,13 +112,11 @@ Theorem C02_blank_chain_refuted : exists d line,
 Proof. exact blank_chain_not_rereadable. Qed.
 Print Assumptions C02_blank_chain_refuted.
 
-(* PARTIAL: the full statement also asks (a) "as many decimals as fit" for |x| >= 9999.5 in the form
-   coord_ok (max_fit / near_power_of_ten; the interval table xyz_decimals above is its closed form, their
-   agreement is checked by the executable spec on every run, not proved), (b) the final step from C02_row_roundtrip to approx_row d d' = true: the binary64 rounding b64 of the re-read decimal
-   (relative error 2^-53, accounted for by Spec_export.slack in the executable comparison) has no error-bound
-   theorem yet, and (c) idempotence of a second export.
-   (b) and (c) are decided on every run by the executable spec (line_ok / approx_row) applied to the
-   implementation's output and by implementation = model on the same rows. *)
+(* PARTIAL: the full statement also asks (a) "as many decimals as fit" for |x| >= 9999.5 in the form coord_ok
+   (max_fit / near_power_of_ten: the interval table xyz_decimals above is its closed form; proved here only in the
+   direction the round trip needs, Proofs_roundtrip2.coord_tol_ge) and (c) idempotence of a second export; both are
+   decided on every run by the executable spec (line_ok) applied to the implementation's output and by
+   implementation = model on the same rows. *)
 
 (* non-vacuity and the concrete renderings quoted in the property *)
 Example C02_examples :
